@@ -26,6 +26,7 @@ func printWitnesses() {
 		{"F-C16-in", leaf("python_full_version", "not in", "3.9.0", false), nil},
 		{"F-C16-pre-lhs", leaf("implementation_version", "<", "3.9.6rc1", true), nil},
 		{"F-C16-pre-lhs", leaf("python_version", "<=", "3.9.dev1", true), nil},
+		{"F-C16-post-lhs-ne", leaf("implementation_version", "!=", "3.9.6.post1", true), nil},
 		{"F-C16-eqeqeq-case", leaf("platform_system", "===", "linux", false), nil},
 		{"F-C16-eqeqeq-case", leaf("os_name", "===", "a b", false), nil},
 		{"F-C16-legacy-rhs", leaf("platform_system", "!=", "6.9.10", false), nil},
